@@ -213,7 +213,9 @@ def main(argv=None):
     )
     tb = [
         "Coq 8.16.1 kernel (coqc; thorough tier re-checks with coqchk); no native_compute",
-        "axioms reported by Print Assumptions: " + (", ".join(proof["axioms"]) if proof["axioms"] else "none (Closed under the global context)"),
+        "axioms reported by Print Assumptions: " + (", ".join(proof["axioms"]) if proof["axioms"] else ("none besides the kernel primitives named next" if proof.get("kernel_primitives") else "none (Closed under the global context)")),
+    ] + (["kernel primitives the theorems about the bit-exact float model depend on (Coq's native binary64 floats, listed by Print Assumptions; not declarations of this development): "
+          + "; ".join(proof.get("kernel_primitives", []))] if proof.get("kernel_primitives") else []) + [
         "translator/py2coq.py + pins.py (scalar layer, tables and the statements of every transcribed function regenerated from /repo on this run; tied by Proofs/GenTie.v, Proofs/Tie*.v, Proofs/Pin*.v)",
         "extraction: ExtrOcamlBasic only, no Extract Constant/Inductive of ours; ocaml/driver.ml (parsing/printing)",
         "correspondence harness: generators, canonicalisation, comparators (harness/)",
